@@ -17,7 +17,7 @@ class Md6(Case):
     prop = 'C17'
     name = 'C17.md6'
     timeout_s = 900
-    bounds = ('MD6(d,K,L)(M,bitlen) with rounds in {1,2,5} (and the default round count at d=256 for one block): d in {1,7,160,224,256,384,512}; L in {0,1,2,3,64}; |K| in {0,1,10,64}; '
+    bounds = ('MD6(d,K,L)(M,bitlen) with rounds in {1,2,5} (and the DEFAULT round count for d in {1,7,128,159,160,256,384,512}, keyed and unkeyed, on one block): d in {1,7,160,224,256,384,512}; L in {0,1,2,3,64}; |K| in {0,1,10,64}; '
               '|M| in {0,1,383,384,385,511,512,513,1025,2048,2049} bytes everywhere and 8193 bytes (17 leaf blocks, 3 tree levels) for the hierarchical and hybrid modes; bit lengths with L\' mod 8 in 1..7 '
               'at three lengths; message and key bytes symbolic; ceil(d/8) output bytes')
     outside = 'messages of more than 17 leaf blocks (4 tree levels); default round counts beyond one block; keys longer than 64 bytes (the library truncates them silently; not demanded)'
@@ -42,6 +42,10 @@ class Md6(Case):
             for L in (64, 0):
                 yield dict(d=224, L=L, kl=10, r=r, n=600, bl=None)
         yield dict(d=256, L=64, kl=0, r=None, n=3, bl=None)
+        for d in (1, 7, 128, 159, 160, 384, 512):
+            # default round count r = 40 + d/4 (max(80, .) with a key): unkeyed and keyed, tree and sequential
+            for L, kl in ((64, 0), (0, 0), (64, 3)):
+                yield dict(d=d, L=L, kl=kl, r=None, n=2, bl=None)
         yield dict(d=256, L=0, kl=5, r=None, n=3, bl=None)
 
     def mk(self, shape, src):
